@@ -8,13 +8,19 @@ RULE = ("script families (canonical templates x random payloads; every one-byte 
         "variants; random token sequences; random bytes up to 10 kB) x {bitcoin,testnet3} pushed through the real script evaluator "
         "(guarded script-eval tool mode, release + debug builds); each verdict compared with the reference rule table and every "
         "printed address decoded by an independent Base58Check/Bech32(m) decoder; a sample is embedded in chains and observed "
-        "black-box (csvdump address column, unspent dump, simplestats type table, opreturn). "
+        "black-box (csvdump address column, unspent dump, simplestats type table, opreturn). recur_far: 2^16+ distinct destinations "
+        "evaluated in ONE process, then destinations from all over that history return, unchanged and in another role. "
         "distinct = (family, rule set, observed type, address present) signatures")
 
 
 def plan(chk):
     units = sc.std_units(COINS_, chk.thorough, chk.seed, "release")
     units += sc.std_units(COINS_, False, chk.seed + 1, "debug", scale=0.15 if not chk.thorough else 1.0)
+    # long evaluation history in ONE process: 2^16+ distinct destinations, then earlier ones return (same role and another role)
+    for i, coin in enumerate(COINS_):
+        units.append(dict(case="unit", family="recur_far", coin=coin, seed=chk.seed + i, profile="release", one_process=True,
+                          pool=70000 if (chk.thorough or i == chk.seed % 2) else 20000))
+    units.append(dict(case="unit", family="recur_far", coin=COINS_[(chk.seed + 1) % 2], seed=chk.seed + 5, profile="debug", one_process=True, pool=6000))
     n = 0
     for coin in COINS_:
         for i in range(6 if chk.thorough else 2):
